@@ -1,5 +1,7 @@
 import TabulaModel.Util
 import TabulaModel.Model.HeaderFooter
+import TabulaModel.Model.HFExtract
+import TabulaModel.Model.HFOffice
 /-!
 Line protocol of C11 (see harness/c11/c11.go):
 
@@ -7,6 +9,26 @@ Line protocol of C11 (see harness/c11/c11.go):
   answer `k` followed by one field per page: the kept fragment ids `0,2,3` or `-`.
 * `c11.detect <page>…` — answer `H=<hextext:ispn:p,p;…> F=<…>` (entries sorted, `-` when empty).
 * `c11.norm`, `c11.ispn`, `c11.match`, `c11.cpn`, `c11.charlevel`, `c11.docx`, `c11.odt`, `c11.pptx`.
+* `c11.x <term> <open|reader> <chain> <spage>…` — one request on a fresh extractor (`Model/HFExtract.lean`):
+  spage = `idx:height:frag|…` or `idx:!` (page cannot be read); chain = `-` or calls joined by `;`:
+  `P1,3` Pages(1, 3), `P` Pages(), `R2,4` PageRange(2, 4), `H` `F` `B` ExcludeHeaders / Footers / HeadersAndFooters,
+  `J` `C` `L` JoinParagraphs / ByColumn / PreserveLayout; term = lines | paras | blocks | ro
+  (answer `ok <keys>`: the fragments the page detectors are handed, as a sorted multiset of `hextext@x@y` joined
+  by `;`), frags (the same for `Fragments()`), doc (`ok num:count,…`), analyze (`ok count`); `err` for an error.
+* `c11.xh <open|reader> <spage>… | <step>…` — a script on ONE source: step = `parent/chain/term`; answers one
+  field per step: `e` error, `o` value (not modelled further), `k=<keys>` / `d=<num:count,…>` / `a=<count>`.
+* `c11.xtext <open|reader> <chain> W=<width,…> <spage>… | <entry>…` — `Text()`; widths = `page.Width()` per page;
+  entry = `k/ids/cg/pl/jp/bc/asm`: for page index k and the kept-id list ids (`0.2.3` or `-`): whether the reading
+  order detector finds more than one column, and the four assemblers' outputs (hex) on those fragments, supplied by
+  the harness (C09's code); answer `ok <hextext>` or `err`, or `no-render` when the model keeps a list the table
+  has no entry for.
+* `c11.rootcl l=<hexlist>` — `tabula.isCharacterLevel` (extractor.go) on fragments with these texts.
+* `c11.mcol <n> <width> <cg>` — `tabula.detectMultiColumn` on n fragments, page width, detector's verdict cg.
+* `c11.otext <text|md> <exH> <exF> h=<hexlist> f=<hexlist> <elem>…` — DOCX/ODT `TextWithOptions` / `MarkdownWithOptions`
+  on plain paragraphs (`p<hex>`) and tables (`t<hex>`: the table's rendering, supplied); answer the hex text.
+* `c11.ptext <exH> <exF> <slide>…` — PPTX `TextWithOptions` as `Extractor.Text` calls it; slide =
+  `hextitle/hexnotes/blk;blk;…` (`~` = no blocks), blk = `T|hexph|p,p,…` (`~` = no paragraphs); answer the hex text.
+* `c11.awhf <i> <page>…` — `AnalyzeWithHeaderFooterFiltering(pages, i).Stats.FragmentCount`: count or `none`.
 -/
 namespace Tabula.C11H
 open Tabula Tabula.HF
@@ -62,6 +84,239 @@ def regionsField (rs : List Region) : String :=
       s!"{hexS r.text}:{b01 r.isPageNumber}:{",".intercalate (r.pages.map toString)}"
     ";".intercalate (es.foldr insertStr [])
 
+/-! ### extractor-level ops -/
+section Extract
+open Tabula.HFX Tabula.Builder Tabula.PageSel Tabula.TextPipe
+
+def parseSPage (s : String) : Option (Option RawPage) :=
+  match s.splitOn ":" with
+  | [_, "!"] => some none
+  | [_, h, fs] => do
+    let frags ← if fs == "" then some [] else (fs.splitOn "|").mapM parseFrag
+    pure (some { height := ← parseRat h, frags := frags })
+  | _ => none
+
+def parseIntList (s : String) : Option (List Int) :=
+  if s == "" then some [] else (s.splitOn ",").mapM (·.toInt?)
+
+def parseCall (s : String) : Option BCall :=
+  match s with
+  | "H" => some .excludeHeaders
+  | "F" => some .excludeFooters
+  | "B" => some .excludeHeadersAndFooters
+  | "J" => some .joinParagraphs
+  | "C" => some .byColumn
+  | "L" => some .preserveLayout
+  | _ =>
+    if s.startsWith "P" then (parseIntList (s.drop 1).toString).map BCall.pages
+    else if s.startsWith "R" then
+      match parseIntList (s.drop 1).toString with
+      | some [a, b] => some (.pageRange a b)
+      | _ => none
+    else none
+
+def parseChain (s : String) : Option (List BCall) :=
+  if s == "-" then some [] else (s.splitOn ";").mapM parseCall
+
+def parseBase (s : String) : Option Ext :=
+  if s == "open" then some baseOpen else if s == "reader" then some baseReader else none
+
+def ratStr (q : Rat) : String := if q.den = 1 then toString q.num else s!"{q.num}/{q.den}"
+
+def fragKeyStr (f : Frag) : String := s!"{hexS f.text}@{ratStr f.x}@{ratStr f.y}"
+
+def keysField (fs : List Frag) : String :=
+  if fs.isEmpty then "-" else ";".intercalate ((fs.map fragKeyStr).foldr insertStr [])
+
+def countsField (l : List (Nat × Nat)) : String :=
+  if l.isEmpty then "-" else ",".intercalate (l.map fun p => s!"{p.1}:{p.2}")
+
+inductive XTerm where
+  | inputs (t : Term) | frags | doc | analyze | text | other (t : Term) | non (t : NonTerm)
+
+def parseXTerm (s : String) : Option XTerm :=
+  match s with
+  | "lines" => some (.inputs .lines)
+  | "paras" => some (.inputs .paragraphs)
+  | "blocks" => some (.inputs .blocks)
+  | "ro" => some (.inputs .readingOrder)
+  | "headings" => some (.other .headings)
+  | "lists" => some (.other .lists)
+  | "frags" => some .frags
+  | "doc" => some .doc
+  | "analyze" => some .analyze
+  | "text" => some .text
+  | "markdown" => some (.other .toMarkdown)
+  | "count" => some (.non .pageCount)
+  | "charlevel" => some (.non .isCharacterLevel)
+  | "multicol" => some (.non .isMultiColumn)
+  | _ => none
+
+def xAnswer (t : XTerm) (src : Source) (e0 : Ext) (cs : List BCall) : String :=
+  match t with
+  | .inputs k => match inputsCall k src e0 cs with
+    | .ok ins => "ok " ++ keysField ins.flatten
+    | .error _ => "err"
+  | .frags => match fragmentsCallOf src e0 cs with
+    | .ok fs => "ok " ++ keysField fs
+    | .error _ => "err"
+  | .doc => match HFX.documentCall src e0 cs with
+    | .ok l => "ok " ++ countsField l
+    | .error _ => "err"
+  | .analyze => match analyzeCall src e0 cs with
+    | .ok n => s!"ok {n}"
+    | .error _ => "err"
+  | _ => "bad-op"
+
+/-- split the arguments at the `|` token -/
+def splitBar (args : List String) : List String × List String :=
+  (args.takeWhile (· ≠ "|"), (args.dropWhile (· ≠ "|")).drop 1)
+
+structure HState where
+  store : Store
+  vars : List Nat          -- script variable ↦ index into `store.exts`
+
+/-- derive a chain from store index `i`; returns the index of the last extractor made -/
+def deriveChain (w : World) (s : Store) (i : Nat) : List BCall → Store × Nat
+  | [] => (s, i)
+  | c :: cs =>
+    let s1 := (step w s (.derive i c)).1
+    deriveChain w s1 (s1.exts.length - 1) cs
+
+def resField : Res → String
+  | .err | .bad => "e"
+  | _ => "o"
+
+def histStepAnswer (src : Source) (st : HState) (step : String) : Option (HState × String) :=
+  match step.splitOn "/" with
+  | [par, ch, tm] => do
+    let p ← par.toNat?
+    let cs ← parseChain ch
+    let t ← parseXTerm tm
+    let i ← st.vars[p]?
+    let w := worldOf src
+    let (s1, j) := deriveChain w st.store i cs
+    let vars := if cs.isEmpty then st.vars else st.vars ++ [j]
+    match t with
+    | .inputs k =>
+      let r := histInputs src k s1 j
+      pure (⟨r.1, vars⟩, match r.2 with
+        | .ok ins => "k=" ++ keysField ins.flatten
+        | .error _ => "e")
+    | .frags =>
+      let sr := terminal w .fragments s1 j
+      pure (⟨sr.1, vars⟩, match viaFrame (fragmentsOp src) sr.2 with
+        | .ok fs => "k=" ++ keysField fs
+        | .error _ => "e")
+    | .doc =>
+      let sr := terminal w .document s1 j
+      let o := (s1.exts[j]?.map (·.opts)).getD {}
+      pure (⟨sr.1, vars⟩, match viaFrame (documentCounts o src) sr.2 with
+        | .ok l => "d=" ++ countsField l
+        | .error _ => "e")
+    | .analyze =>
+      let sr := terminal w .analyze s1 j
+      let o := (s1.exts[j]?.map (·.opts)).getD {}
+      pure (⟨sr.1, vars⟩, match viaFrame (analyzeCount o src) sr.2 with
+        | .ok n => s!"a={n}"
+        | .error _ => "e")
+    | .text =>
+      let sr := terminal w .text s1 j
+      -- the text itself needs C09's assemblers; here only "a requested page cannot be read"
+      let o := (s1.exts[j]?.map (·.opts)).getD {}
+      pure (⟨sr.1, vars⟩, match viaFrame (inputsOf o src) sr.2 with
+        | .ok _ => "o"
+        | .error _ => "e")
+    | .other k =>
+      let sr := terminal w k s1 j
+      let o := (s1.exts[j]?.map (·.opts)).getD {}
+      pure (⟨sr.1, vars⟩, match viaFrame (inputsOf o src) sr.2 with
+        | .ok _ => "o"
+        | .error _ => "e")
+    | .non k =>
+      let sr := nonTerminal w k s1 j
+      -- IsCharacterLevel / IsMultiColumn read page 1
+      let bad := match k with
+        | .pageCount => false
+        | _ => match readPage src 0 with | .ok _ => false | .error _ => true
+      pure (⟨sr.1, vars⟩, if bad then "e" else resField sr.2)
+  | _ => none
+
+def histAnswers (src : Source) : HState → List String → Option (List String)
+  | _, [] => some []
+  | st, x :: xs => do
+    let (st', a) ← histStepAnswer src st x
+    let rest ← histAnswers src st' xs
+    pure (a :: rest)
+
+def parseIds (s : String) : Option (List Nat) :=
+  if s == "-" then some [] else (s.splitOn ".").mapM (·.toNat?)
+
+structure RenderEntry where
+  page : Nat
+  ids : List Nat
+  cg : Bool
+  pl : HF.Str
+  jp : HF.Str
+  bc : HF.Str
+  asm : HF.Str
+
+def parseEntry (s : String) : Option RenderEntry :=
+  match s.splitOn "/" with
+  | [k, ids, cg, pl, jp, bc, asm] => do
+    pure { page := ← k.toNat?, ids := ← parseIds ids, cg := cg == "1",
+           pl := ← unhexS pl, jp := ← unhexS jp, bc := ← unhexS bc, asm := ← unhexS asm }
+  | _ => none
+
+/-- the ids (positions in the page's raw fragments) of a sublist `fs` of the raw fragments -/
+def idsOf : List Frag → List Frag → Nat → List Nat
+  | [], _, _ => []
+  | _ :: _, [], _ => []
+  | f :: fs, r :: raw, i => if f = r then i :: idsOf fs raw (i + 1) else idsOf (f :: fs) raw (i + 1)
+
+def lookupEntry (tbl : List RenderEntry) (src : Source) (k : Nat) (fs : List Frag) : Option RenderEntry :=
+  let raw := match readPage src k with | .ok rp => rp.frags | .error _ => []
+  tbl.find? fun e => e.page == k && e.ids == idsOf fs raw 0
+
+/-- marker the renderers return when the table has no entry (never a legal text: byte 0xFF 0x00) -/
+def noRender (k : Nat) : HF.Str := [255, 0, k]
+
+def renderersOf (tbl : List RenderEntry) (src : Source) : Renderers where
+  ocr _ := none
+  columnsGt1 k fs := match lookupEntry tbl src k fs with | some e => e.cg | none => false
+  render m k fs := match lookupEntry tbl src k fs with
+    | some e => (match m with
+      | .preserveLayout => e.pl | .paragraphs => e.jp | .byColumn => e.bc | .plain => e.asm)
+    | none => noRender k
+
+end Extract
+
+/-! ### DOCX / ODT / PPTX loops -/
+section Office
+open Tabula.HFOffice
+
+def parseElem (s : String) : Option Elem :=
+  if s.startsWith "p" then (unhexS (s.drop 1).toString).map Elem.para
+  else if s.startsWith "t" then (unhexS (s.drop 1).toString).map Elem.table
+  else none
+
+def parseTilde {α : Type} (sep : String) (f : String → Option α) (s : String) : Option (List α) :=
+  if s == "~" then some [] else (s.splitOn sep).mapM f
+
+def parseBlock (s : String) : Option Block :=
+  match s.splitOn "|" with
+  | [t, ph, ps] => do
+    pure { isTitle := t == "1", placeholder := ← unhexS ph, paras := ← parseTilde "," unhexS ps }
+  | _ => none
+
+def parseSlide (s : String) : Option Slide :=
+  match s.splitOn "/" with
+  | [t, n, bs] => do
+    pure { title := ← unhexS t, notes := ← unhexS n, content := ← parseTilde ";" parseBlock bs }
+  | _ => none
+
+end Office
+
 def mkCand (t : Str) : Cand := { text := t, x := 0, y := 0, w := 0, h := 0, page := 0 }
 def mkFrag (t : Str) : Frag := { text := t, x := 0, y := 0, w := 0, h := 0, fs := 0 }
 
@@ -77,6 +332,54 @@ def handle (op : String) (args : List String) : String :=
       let res := detect defaultConfig pages
       s!"H={regionsField res.headers} F={regionsField res.footers}"
     | none => "bad-op"
+  | "c11.x", t :: b :: ch :: ps =>
+    match parseXTerm t, parseBase b, parseChain ch, ps.mapM parseSPage with
+    | some t, some e0, some cs, some src => xAnswer t src e0 cs
+    | _, _, _, _ => "bad-op"
+  | "c11.xh", b :: rest =>
+    let (ps, steps) := splitBar rest
+    match parseBase b, ps.mapM parseSPage with
+    | some e0, some src =>
+      let s0 : Builder.Store := if b == "reader" then Builder.readerBase else Builder.openBase
+      let _ := e0
+      match histAnswers src ⟨s0, [0]⟩ steps with
+      | some as => if as.isEmpty then "-" else " ".intercalate as
+      | none => "bad-op"
+    | _, _ => "bad-op"
+  | "c11.xtext", b :: ch :: ws :: rest =>
+    let (ps, es) := splitBar rest
+    let widths := ((ws.drop 2).toString.splitOn ",").map fun w => (parseRat w).getD 0
+    match parseBase b, parseChain ch, ps.mapM parseSPage, es.mapM parseEntry with
+    | some e0, some cs, some src0, some tbl =>
+      let src : HFX.Source := (src0.zip widths).map fun p => p.1.map fun rp => { rp with width := p.2 }
+      if src.length != src0.length then "bad-op" else
+      match HFX.textCallOf (renderersOf tbl src) src e0 cs with
+      | .ok t => if t.any (· == 255) then "no-render" else "ok " ++ hexS t
+      | .error _ => "err"
+    | _, _, _, _ => "bad-op"
+  | "c11.otext", kind :: exH :: exF :: hs :: fs :: es =>
+    match parseHexList (hs.drop 2).toString, parseHexList (fs.drop 2).toString, es.mapM parseElem with
+    | some hs, some fs, some es =>
+      let ps : HFOffice.Parts := ⟨hs, fs, exH == "1", exF == "1"⟩
+      if kind == "text" then hexS (HFOffice.officeText ps es)
+      else if kind == "md" then hexS (HFOffice.officeMarkdown ps es)
+      else "bad-op"
+    | _, _, _ => "bad-op"
+  | "c11.ptext", exH :: exF :: ss => match ss.mapM parseSlide with
+    | some slides => hexS (HFOffice.pptxText (exH == "1") (exF == "1") slides)
+    | none => "bad-op"
+  | "c11.awhf", i :: ps => match i.toInt?, ps.mapM parsePage with
+    | some i, some pages => match HFX.analyzeWithHFInput pages i with
+      | some fs => toString fs.length
+      | none => "none"
+    | _, _ => "bad-op"
+  | "c11.rootcl", [l] => match parseHexList (l.drop 2).toString with
+    | some ts => b01 (HFX.charLevelRoot (ts.map mkFrag)) | none => "bad-op"
+  | "c11.mcol", [n, w, cg] => match n.toNat?, parseRat w with
+    | some n, some w =>
+      let R : HFX.Renderers := { ocr := fun _ => none, columnsGt1 := fun _ _ => cg == "1", render := fun _ _ _ => [] }
+      b01 (HFX.multiColRoot R w 0 (List.replicate n (mkFrag [120])))
+    | _, _ => "bad-op"
   | "c11.norm", [h] => match unhexS h with
     | some s => hexS (normalize s) | none => "bad-op"
   | "c11.ispn", [h] => match unhexS h with
